@@ -84,12 +84,9 @@ def ref_domain(d, p, obj=None):
             m = abs(lhs - rhs) / (lhs + rhs)
             return (1 if lhs < rhs else 0), m > 64 * EPS
         d2 = sum((a - b) ** 2 for a, b in zip(P, C))
-        if k == "sphere":
-            radii = [d["r"]]
-        elif obj is not None:
-            radii = [float(x) for x in np.atleast_1d(obj.r)]
-        else:
-            radii = radii_of(d)
+        # radii come from the template (harness-side cumulative sum of the thicknesses), never from the
+        # object under test; the 64-ulp abstention absorbs the different rounding of the running sum
+        radii = [d["r"]] if k == "sphere" else radii_of(d)
         dom, decided = 0, True
         for i, r in enumerate(radii):
             r2 = Fraction(float(r)) ** 2
@@ -159,6 +156,12 @@ def run_contain(case):
     labels = [d["k"]]
     dom = s.in_domain(pts)
     con = s.contains(pts)
+    if d["k"] in ("layered", "layered_t"):
+        want_r = np.array(radii_of(d))
+        got_r = np.atleast_1d(np.asarray(s.r, dtype=float))
+        if got_r.shape != want_r.shape or np.abs(got_r - want_r).max() > 1e-12 * want_r.max():
+            return Outcome(failure("layer_radii", "%s: object reports layer radii %r, thicknesses/radii given imply %r" % (d["k"], got_r.tolist(), want_r.tolist()),
+                                   kind=d["k"]), True, labels)
     ndec = 0
     near_both = set()
     refs = []
